@@ -23,6 +23,16 @@ struct TransferInfo {
 }
 
 impl TransferInfo {
+    /// Pacing tick = duration / nb_packets, exact integer division of the nanoseconds
+    /// (an f64 division is off by more than 1 ns per packet above 2^53 ns)
+    fn packet_tick(duration: std::time::Duration, nb_packets: u64) -> std::time::Duration {
+        let nanos = duration.as_nanos() / nb_packets as u128;
+        std::time::Duration::new(
+            (nanos / 1_000_000_000) as u64,
+            (nanos % 1_000_000_000) as u32,
+        )
+    }
+
     fn init(&mut self, object: &ObjectDesc, oti: &oti::Oti, now: SystemTime) {
         self.transferring = true;
         self.last_transfer_start_time = Some(now);
@@ -38,7 +48,7 @@ impl TransferInfo {
                     // An empty object has no source packet to pace (and `div_f64(0.0)` panics)
                     match nb_packets {
                         0 => None,
-                        _ => Some(duration.div_f64(nb_packets as f64)),
+                        _ => Some(Self::packet_tick(*duration, nb_packets)),
                     }
                 }
                 crate::sender::objectdesc::TargetAcquisition::WithinTime(target_time) => {
@@ -56,7 +66,7 @@ impl TransferInfo {
                         .div_ceil(oti.encoding_symbol_length as u64);
                     match nb_packets {
                         0 => None,
-                        _ => Some(duration.div_f64(nb_packets as f64)),
+                        _ => Some(Self::packet_tick(duration, nb_packets)),
                     }
                 }
             }
